@@ -123,7 +123,6 @@ impl PredicateWrapper {
 
     /// Auto judge the `PredicateWrapper` version from `serde:Value`
     pub fn judge_from_value(value: &Value) -> Result<PredicateVer> {
-        println!("{:?}", value);
         for version in PredicateVer::iter() {
             let wrapper = PredicateWrapper::from_value(value.clone(), version);
             if wrapper.is_ok() {
